@@ -724,6 +724,10 @@ func buildME(r *Rng, me []byte, pol byte, o meOpts) {
 		fill(r, h[8:32], 2, pol)
 		for k, p := range o.entries {
 			e := h[32+32*k:]
+			if p.off == 0xffffffff && p.length == 0xffffffff {
+				fill(r, e[:32], 0, pol) // an erased entry (Offset 0xffffffff or 0: not valid)
+				continue
+			}
 			fill(r, e[:32], 2, pol)
 			binary.LittleEndian.PutUint32(e[8:], p.off)
 			binary.LittleEndian.PutUint32(e[12:], p.length)
@@ -974,6 +978,16 @@ func genImage(r *Rng, class int) (img []byte, pol byte) {
 				lo = 1
 			}
 			hi := lo + r.Intn(endAt-lo+1)
+			if r.Chance(1, 3) { // round sizes: 1 KiB / 4 KiB multiples
+				a := r.Pick(0x400, 0x1000)
+				if l2 := (lo + a - 1) / a * a; l2 <= endAt {
+					lo = l2
+					hi = lo + (endAt-lo)/a*a
+					if r.Bool() && hi-lo >= 2*a {
+						hi -= a
+					}
+				}
+			}
 			p = part{uint32(lo), uint32(hi - lo)}
 		}
 		o.entries = append(o.entries, p)
@@ -989,6 +1003,21 @@ func genImage(r *Rng, class int) (img []byte, pol byte) {
 			lo += r.Intn(endAt - lo)
 		}
 		o.entries[k] = part{uint32(lo), uint32(endAt - lo)}
+	}
+	if (class == 0 || class == 3) && meBlocks >= 2 && r.Chance(1, 12) {
+		// a long table whose unused entries are erased: the table itself reaches into the
+		// space tighten_me frees (the saved file then has no parsable table any more)
+		ne = r.Range(100, 220)
+		if o.fptAt+32+32*ne > limitEnd {
+			ne = (limitEnd - o.fptAt - 32) / 32
+		}
+		o.entries = make([]part, ne)
+		for k := range o.entries {
+			o.entries[k] = part{0xffffffff, 0xffffffff}
+		}
+		endAt = r.Pick(0x800, 0xfff, 0x1000, 0x1001)
+		lo := r.Range(0x400, endAt-1)
+		o.entries[r.Intn(3)] = part{uint32(lo), uint32(endAt - lo)}
 	}
 	switch class {
 	case 3: // non-erased byte in the space that would be freed (or in the slack before it)
